@@ -26,11 +26,11 @@ type Config struct {
 
 // SeriesDef is one series a simulated target can expose.
 type SeriesDef struct {
-	Name   string    `json:"name"`
-	Labels sm.Labels `json:"labels,omitempty"`
-	TS     bool      `json:"ts,omitempty"`   // exposed with explicit timestamps
-	Hist   bool      `json:"hist,omitempty"` // native histogram series (protobuf bodies only)
-	Classic bool     `json:"classic,omitempty"` // classic histogram: exposed as <name>_count, <name>_sum, <name>_bucket{le=...}
+	Name    string    `json:"name"`
+	Labels  sm.Labels `json:"labels,omitempty"`
+	TS      bool      `json:"ts,omitempty"`      // exposed with explicit timestamps
+	Hist    bool      `json:"hist,omitempty"`    // native histogram series (protobuf bodies only)
+	Classic bool      `json:"classic,omitempty"` // classic histogram: exposed as <name>_count, <name>_sum, <name>_bucket{le=...}
 }
 
 // Classic is the value of one classic histogram line.
